@@ -91,6 +91,16 @@ def c01_gen(r, tier):
     for al in O.ALIASES:
         a, k = G.gen_leaf_args(r, "Value", O.ALIASES[al])
         yield {"leaf": G.leaf("Value", al, *a, **k), "doc": enc(r.choice(docs))}
+    # items that are == but of different types next to each other (1, 1.0, True; 0, 0.0, False): each item gets its own
+    # verdict - nothing may be carried over from an equal item (a value-keyed cache would)
+    mixed = [[1, 1.0, "1", True, 2.0], [True, 1.0, 1], [0.0, False, 0, ""], [False, 0.0], {"a": 1.0, "b": True, "c": 1},
+             {1: "x", True: "y"}, [1.0, 1, True, [1], [1.0], [True]]]
+    for d in mixed:
+        for t in (G.leaf("Value", "is_instance", {"$type": "int"}), G.leaf("Value", "is_instance", {"$type": "float"}),
+                  G.leaf("Value", "is_instance", {"$type": "bool"}), G.leaf("ValueDataType", "equal_to", {"$type": "bool"}),
+                  G.leaf("ValueDataType", "in_", [{"$type": "int"}, {"$type": "float"}]), G.leaf("Value", "equal_to", True),
+                  G.leaf("Value", "in_", [1.0]), G.leaf("Value", "truthy")):
+            yield {"leaf": t, "doc": enc(d)}
 
 
 # =========================================================================== C02
@@ -286,6 +296,12 @@ def c03_gen(r, tier):
     for d in ([10, 20, 30], {"runs": [{"id": 1}, {"id": 2}, {"id": 3}]}, {"a": {-1: "neg", 1: "pos"}}, [[1, 2], [3, 4]]):
         for parts in ([-1], [-2], ["runs", -1], ["runs", -3, "id"], ["a", -1], [0, -1], [-1, -1], [3], [-4]):
             yield {"path": {"parts": [{"$prim": q} for q in parts]}, "doc": enc(d)}
+    # a key / index condition in the *generic* condition slot of a map-or-list part: mappings only / lists only
+    keq, ieq = G.leaf("Key", "equal_to", 0), G.leaf("Index", "equal_to", 1)
+    for d in (["x", "y"], {0: "a", 1: "b"}, {"p": ["x", "y"], "q": {0: "a", 1: "b"}}, [[10, 20], {1: "one", 0: "zero"}]):
+        for parts in ([{"$p": "mol", "condition": keq}], [{"$p": "mol", "condition": ieq}], [{"$p": "mol"}, {"$p": "mol", "condition": keq}],
+                      [{"$p": "mol"}, {"$p": "mol", "condition": ieq}]):
+            yield {"path": {"parts": copy.deepcopy(parts)}, "doc": enc(d)}
     for _ in range(n):
         d = r.choice(docs) if r.random() < 0.3 else G.gen_doc(r, 3)
         p = G.path_into(r, d) if r.random() < 0.5 else G.gen_path(r, 3)
